@@ -62,27 +62,41 @@ def generate(rng, tier):
             sm = ['min', 'min', 'left', 'right', 0.5, 3.0, 0.375, 40.0][int(rng.integers(0, 8))]
             fill = [1.5, 2.0][int(rng.integers(0, 2))] if fn == 'divide' else [0.0, 0.0, 1.5][int(rng.integers(0, 3))]
             u1, u2 = (W[int(rng.integers(0, 4))], W[int(rng.integers(0, 4))]) if rng.integers(0, 2) else ('nm', 'nm')
-            out.append({'kind': 'pair', 'fn': fn, 'w1': w1, 'v1': v1, 'w2': w2, 'v2': v2, 'u1': u1, 'u2': u2, 'vu': [None, None, 'wlam'][int(rng.integers(0, 3))],
-                        'sampling': sm, 'fill': fill, 'rel': rel})
+            vu = [None, None, 'wlam'][int(rng.integers(0, 3))]
+            # storage dtype of the values: an integer 0/1 bandpass or integer counts are legitimate spectra
+            dt1, dt2 = [['float', 'float', 'int', 'bool'][int(x)] for x in rng.integers(0, 4, 2)]
+            if vu is not None: dt1 = dt2 = 'float'
+            if dt1 == 'int': v1 = [float(int(x)) for x in v1]
+            if dt1 == 'bool': v1 = [float(int(x) % 2) for x in v1]
+            if dt2 == 'int': v2 = [float(max(int(x), 1 if fn == 'divide' else 0)) for x in v2]
+            if dt2 == 'bool': v2 = [1.0 if fn == 'divide' else float(int(x) % 2) for x in v2]
+            if dt1 != 'float' or dt2 != 'float':
+                fill = [0.5, 1.5, 0.25][int(rng.integers(0, 3))] if (fn == 'divide' or rng.integers(0, 3)) else 0.0
+            out.append({'kind': 'pair', 'fn': fn, 'w1': w1, 'v1': v1, 'w2': w2, 'v2': v2, 'u1': u1, 'u2': u2, 'vu': vu,
+                        'sampling': sm, 'fill': fill, 'rel': rel, 'dt1': dt1, 'dt2': dt2})
         elif t == 6:
             w = inc_grid(rng, int(rng.integers(2, 9)), bits=2)
             fn = (OPSN + ['power', 'rmul'])[int(rng.integers(0, 6))]
             c = float(int(rng.integers(0, 4))) if fn == 'power' else dyadic(rng, 0.125 if fn == 'divide' else -4, 8, 3)
-            out.append({'kind': 'scalar', 'fn': fn, 'w1': w, 'v1': [dyadic(rng, 0, 8, 3) for _ in w], 'c': c, 'as_int': bool(rng.integers(0, 2)) and float(c).is_integer()})
+            dt = ['float', 'float', 'int'][int(rng.integers(0, 3))]
+            out.append({'kind': 'scalar', 'fn': fn, 'w1': w, 'v1': [dyadic(rng, 0, 8, 3) if dt == 'float' else float(int(rng.integers(0, 9))) for _ in w], 'c': c,
+                        'as_int': bool(rng.integers(0, 2)) and float(c).is_integer(), 'dt1': dt})
         else:
             w = inc_grid(rng, int(rng.integers(2, 9)), bits=2)
             fn = OPSN[int(rng.integers(0, 4))]
             m = [len(w), len(w), len(w), 1, len(w) + 1, max(2, len(w) - 1) if len(w) != 3 else 5][int(rng.integers(0, 6))]
-            out.append({'kind': 'vector', 'fn': fn, 'w1': w, 'v1': [dyadic(rng, 0, 8, 3) for _ in w], 'v': [dyadic(rng, 0.125, 8, 3) for _ in range(m)],
-                        'as': ['list', 'array', 'tuple'][int(rng.integers(0, 3))]})
+            dt = ['float', 'float', 'int'][int(rng.integers(0, 3))]
+            out.append({'kind': 'vector', 'fn': fn, 'w1': w, 'v1': [dyadic(rng, 0, 8, 3) if dt == 'float' else float(int(rng.integers(0, 9))) for _ in w],
+                        'v': [dyadic(rng, 0.125, 8, 3) for _ in range(m)], 'as': ['list', 'array', 'tuple'][int(rng.integers(0, 3))], 'dt1': dt})
     return out
 
 def signature(c):
-    if c['kind'] == 'pair': return f"pair {c['fn']} {c['sampling']} {c['u1']} {c['u2']} {c['vu']} {len(c['w1'])} {len(c['w2'])} {c['w1'][:2]} {c['w2'][:2]}"
+    if c['kind'] == 'pair': return f"pair {c.get('dt1')}/{c.get('dt2')} {c['fn']} {c['sampling']} {c['u1']} {c['u2']} {c['vu']} {len(c['w1'])} {len(c['w2'])} {c['w1'][:2]} {c['w2'][:2]}"
     return f"{c['kind']} {c['fn']} {len(c['w1'])} {c.get('c', len(c.get('v', [])))} {c['w1'][:2]}"
 def nontrivial(c): return c['kind'] != 'pair' or c['w1'] != c['w2'] or c['u1'] != c['u2']
 def tags(c):
     t = [c['kind'], 'op:' + c['fn']]
+    t.append('dtype:' + c.get('dt1', 'float') + ('/' + c['dt2'] if 'dt2' in c else ''))
     if c['kind'] == 'pair': t += ['rel:' + c['rel'], 'sampling:' + str(c['sampling'] if isinstance(c['sampling'], str) else 'float'), 'units:' + ('same' if c['u1'] == c['u2'] else 'mixed')]
     return t
 
@@ -92,10 +106,44 @@ def _R():
     import lentil.radiometry as R
     return R
 
-def _mk(R, w_nm, v, u, vu):
+DT = {'float': float, 'int': np.int64, 'bool': bool}
+
+def _mk(R, w_nm, v, u, vu, dt='float'):
     f = float(MPU['nm'] / MPU[u])
     k = 1.0 if vu is None else f
-    return R.Spectrum(np.array(w_nm) * f, np.array(v) / k, waveunit=u, valueunit=vu)
+    val = np.array(v) / k
+    if dt != 'float': val = np.array(v).astype(DT[dt])          # integer-/bool-stored values (only with vu None)
+    return R.Spectrum(np.array(w_nm) * f, val, waveunit=u, valueunit=vu)
+
+class _Guard(Exception):
+    pass
+
+class guard:
+    """run an implementation call under a time limit (20 s) and an address-space limit (+3 GB): a spectrum operation on
+    <= 10 samples that needs more has built an absurd grid; report it instead of hanging the check"""
+    def __init__(self, seconds=20, extra=3 << 30): self.seconds, self.extra = seconds, extra
+    def _alarm(self, *a): raise _Guard(f'call did not finish within {self.seconds} s')
+    def __enter__(self):
+        import signal, resource
+        self.old = signal.signal(signal.SIGALRM, self._alarm); signal.setitimer(signal.ITIMER_REAL, self.seconds)
+        self.lim = resource.getrlimit(resource.RLIMIT_AS)
+        try:
+            used = int(open('/proc/self/statm').read().split()[0]) * resource.getpagesize()
+            cap = used + self.extra
+            if self.lim[1] != resource.RLIM_INFINITY: cap = min(cap, self.lim[1])
+            resource.setrlimit(resource.RLIMIT_AS, (cap, self.lim[1]))
+        except Exception:
+            pass
+        return self
+    def __exit__(self, et, ev, tb):
+        import signal, resource
+        signal.setitimer(signal.ITIMER_REAL, 0); signal.signal(signal.SIGALRM, self.old)
+        try: resource.setrlimit(resource.RLIMIT_AS, self.lim)
+        except Exception: pass
+        if et is not None and issubclass(et, (MemoryError, _Guard)):
+            self.msg = f'{et.__name__}: {ev}'[:200]; return True
+        self.msg = None
+        return False
 
 def _snap(s): return (s.wave.tobytes(), s.value.tobytes(), s.wave.shape, s.value.shape, s.waveunit, s.valueunit)
 def _out(r): return {'wave': [float(x) for x in r.wave], 'value': [float(x) for x in r.value], 'wu': r.waveunit, 'vu': r.valueunit}
@@ -110,8 +158,17 @@ def impl(c):
         warnings.simplefilter('ignore')
         k = c['kind']
         if k == 'pair':
-            s1, s2 = _mk(R, c['w1'], c['v1'], c['u1'], c['vu']), _mk(R, c['w2'], c['v2'], c['u2'], c['vu'])
+            s1, s2 = _mk(R, c['w1'], c['v1'], c['u1'], c['vu'], c.get('dt1', 'float')), _mk(R, c['w2'], c['v2'], c['u2'], c['vu'], c.get('dt2', 'float'))
             o = {'s1': _out(s1), 's2': _out(s2)}
+            g = guard()
+            with g:
+                _pair(c, R, s1, s2, o)
+            if g.msg: return {'guard': g.msg, 's1': o['s1'], 's2': o['s2']}
+            return o
+        s1 = R.Spectrum(np.array(c['w1']), np.array(c['v1']).astype(DT[c.get('dt1', 'float')]))
+        return _single(c, R, s1)
+
+def _pair(c, R, s1, s2, o):
             b1, b2 = _snap(s1), _snap(s2)
             smp = c['sampling'] if isinstance(c['sampling'], str) else c['sampling'] * float(MPU['nm'] / MPU[c['u1']])
             o['sampling'] = smp
@@ -130,7 +187,9 @@ def impl(c):
                 smu = c['sampling'] if isinstance(c['sampling'], str) else c['sampling'] * float(MPU['nm'] / MPU[u])
                 o['units'][u] = _out(_call(a, c['fn'], b, sampling=smu, fill_value=c['fill']))
             return o
-        s1 = R.Spectrum(np.array(c['w1']), np.array(c['v1']))
+
+def _single(c, R, s1):
+        k = c['kind']
         b1 = _snap(s1)
         if k == 'scalar':
             cc = int(c['c']) if c['as_int'] else c['c']
@@ -144,7 +203,7 @@ def impl(c):
             return {'exc': 'ValueError', 'unchanged': _snap(s1) == b1}
 
 def requests(c, io):
-    if '_harness_exc' in io: return []
+    if '_harness_exc' in io or 'guard' in io: return []
     k = c['kind']
     if k == 'pair':
         sp = lambda o: {'wave': qs(o['wave']), 'value': qs(o['value']), 'wu': o['wu'], 'vu': o['vu']}
@@ -158,6 +217,7 @@ def requests(c, io):
 def _fl(ps): return [float(unq(p)) for p in ps]
 
 def compare(c, io, mo):
+    if 'guard' in io or not mo: return None
     m = mo[0]
     if 'exc' in io: return None if (not m.get('ok') and m.get('err') == io['exc']) else f"impl raised {io['exc']}, model {str(m)[:100]}"
     if not m.get('ok'): return f"model refused ({m.get('err')}), implementation answered"
@@ -175,6 +235,9 @@ NP = {'add': np.add, 'subtract': np.subtract, 'multiply': np.multiply, 'divide':
 
 def oracle(c, io):
     k = c['kind']
+    if 'guard' in io:
+        return ('grid does not span the union at the requested sampling: the operation on %d and %d samples tried to build an absurd grid (%s)'
+                % (len(c['w1']), len(c.get('w2', [])), io['guard']))
     if k != 'pair':
         if 'exc' in io:
             if k == 'vector' and len(c['v']) not in (len(c['w1']), 1): return None if io['unchanged'] else 'refused operation changed the operand'
@@ -188,6 +251,7 @@ def oracle(c, io):
         if not io['unchanged']: return 'operand changed'
         return None
     r = io['res']
+    atol = 1e-9 * (1.0 + max([abs(x) for x in r['value'] if np.isfinite(x)] + [0.0]))      # a grid point 1 ulp off a steep knot
     if not io['new']: return 'result is not a new spectrum'
     if not io['unchanged'][0]: return 'left operand changed by the operation'
     if not io['unchanged'][1]: return 'right operand changed by the operation'
@@ -220,16 +284,16 @@ def oracle(c, io):
             a = a * kden if not (x < w1[0] - tol or x > w1[-1] + tol) else a
             b = b * kden if not (x < w2[0] - tol or x > w2[-1] + tol) else b
         want = float(NP[c['fn']](a, b))
-        if not close(r['value'][i], want, 1e-9, 1e-12) and not near_edge:
+        if not close(r['value'][i], want, 1e-9, atol) and not near_edge:
             return f"value at {x} nm is {r['value'][i]!r}; {c['fn']}(S1, S2) = {c['fn']}({a!r}, {b!r}) = {want!r}"
     if 'swapped' in io:
         s = io['swapped']
-        if len(s['wave']) != len(r['wave']) or not all_close(s['wave'], r['wave'], 1e-12) or not all_close(s['value'], r['value'], 1e-12, 1e-13):
+        if len(s['wave']) != len(r['wave']) or not all_close(s['wave'], r['wave'], 1e-12) or not all_close(s['value'], r['value'], 1e-9, atol):
             return f"{c['fn']} is not commutative: a∘b = {r['value']}, b∘a = {s['value']}"
     if c['vu'] is None:
         for u, ru in io['units'].items():
             fu = float(MPU[c['u1']] / MPU[u])
             if ru['wu'] != u: return f'result of operands in {u} is in {ru["wu"]}'
-            if len(ru['wave']) != len(r['wave']) or not all_close(ru['wave'], [x * fu for x in r['wave']], 1e-12) or not all_close(ru['value'], r['value'], 1e-9, 1e-12):
+            if len(ru['wave']) != len(r['wave']) or not all_close(ru['wave'], [x * fu for x in r['wave']], 1e-12) or not all_close(ru['value'], r['value'], 1e-9, atol):
                 return f"outcome depends on the unit: operands in {u} give {len(ru['wave'])} samples {ru['value'][:4]}…, in {c['u1']},{c['u2']}: {len(r['wave'])} samples {r['value'][:4]}…"
     return None
